@@ -41,6 +41,14 @@ def gen_cases(ctx):
                 "env": {"N": N, "p": 1, "life": -1, "utab": [[0.25, 0.5, 2.5] for _ in range(N)],
                         "ttab": [[float(3 * n + 1), float(3 * n + 2), float(3 * n + 3)] for n in range(N)],
                         "rows": [[0, 17.0, 2], [0, 5.0, 1], [1, 6.0, 0], [3, 7.5, 1]]}})
+    # fixed set-ups: without the rows released at the start the first release comes at step 2 / step 3, strictly between
+    # two forcing frames (steps 0, 4, 8 in two files), after steps with no particles; with a life time of two steps
+    # the model is empty again before the release of step 6
+    for rev, life, rows in ((False, -1, [[0, 1, 5.0, 0], [2, 2, 6.5, 1], [5, 1, 4.25, 2]]),
+                            (True, 2, [[0, 1, 9.0, 1], [3, 1, 8.0, 0], [6, 1, 7.5, 1]])):
+        out.append({"k": "setup", "seed": 1414 + life, "shift": 3 * si.DT,
+                    "setup": {"N": 8, "rev": rev, "S": 51200, "p": 1, "life": life, "fsteps": [0, 4, 8], "u": [0.5, 1.5, -0.5],
+                              "temp": [3.0, 7.0, 11.0], "cuts": [1], "rows": rows, "outside": [], "cont": 0, "land": []}})
     # whole set-ups (Model/Setup.v): irregular frames in several files, release table with times; the run and
     # the run of the set-up shifted by d seconds (whole steps and not), both against the model compiled in Coq
     for q in range(6 if ctx.quick else 60):
@@ -74,7 +82,7 @@ def eval_case(desc, ctx):
     for f in d.glob("*"):
         f.unlink()
     if desc["k"] == "setup":
-        cases, problems, nt = su.eval_setup(desc["setup"], d, [(2, desc["shift"])])
+        cases, problems, nt = su.eval_setup(desc["setup"], d, [(2, desc["shift"])], indep=True)
         return {"ints": cases, "oracle": "; ".join(problems[:3]) or None, "nontrivial": (desc["seed"], "setup") if nt else None,
                 "kind": "setup-shift-" + ("rev" if desc["setup"]["rev"] else "fwd"), "observed": {"frames": desc["setup"]["fsteps"], "shift": desc["shift"]}}
     env = desc["env"]
